@@ -89,6 +89,22 @@ def pNumOpt : P (Option Q) := do
     | .ok q => pure (some q)
     | .error e => throw e
 
+/-- a float with its non-finite cases kept apart -/
+inductive XNum | fin (q : Q) | pinf | ninf | nan
+
+def pNumX : P XNum := do
+  let s ← tok
+  if s == "nan" then pure .nan
+  else if s == "inf" then pure .pinf
+  else if s == "-inf" then pure .ninf
+  else match parseNum s with
+    | .ok q => pure (.fin q)
+    | .error e => throw e
+
+def XNum.toOpt : XNum → Option Q
+  | .fin q => some q
+  | _ => none
+
 def pMany {γ : Type} (n : Nat) (p : P γ) : P (List γ) := do
   let mut acc : Array γ := #[]
   for _ in [0:n] do
@@ -102,6 +118,10 @@ def pVec : P (List Q) := do
 def pVecOpt : P (List (Option Q)) := do
   let n ← pNat
   pMany n pNumOpt
+
+def pVecX : P (List XNum) := do
+  let n ← pNat
+  pMany n pNumX
 
 def pNatList : P (List Nat) := do
   let n ← pNat
